@@ -3,6 +3,7 @@ mod asm;
 mod campaign;
 mod compare;
 mod db;
+mod faults;
 mod monitors;
 mod obs;
 mod orchestrate;
@@ -63,8 +64,9 @@ fn main() {
         "smoke" => {
             let seed: u64 = args.get(2).and_then(|s| s.parse().ok()).unwrap_or(1);
             let iters: u64 = args.get(3).and_then(|s| s.parse().ok()).unwrap_or(200);
-            let c = props::c01();
-            let rep = campaign::run_sched_campaign(&c, seed, Duration::from_secs(600), iters);
+            let prop = args.get(4).cloned().unwrap_or_else(|| "C01".to_string());
+            let c = props::by_name(&prop).expect("unknown property");
+            let rep = campaign::run_campaign(c.as_ref(), seed, Duration::from_secs(600), iters);
             println!("{}", serde_json::to_string_pretty(&rep.to_json()).unwrap());
         }
         _ => usage(),
